@@ -34,8 +34,11 @@ def gen_names(rng, n):
             nm = rng.choice([b[:i] + rng.choice(LETTERS + META) + b[i + 1:], b.swapcase(), b + rng.choice(LETTERS + META),
                              b[:i] + b[i + 1:] or "q"])
         else:
-            ln = rng.choice([1, 2, 3, 4, 5, 6, 8, 12])
-            nm = "".join(rng.choice(LETTERS * 3 + DIGITS + META * 2 + EXOTIC) for _ in range(ln))
+            ln = rng.choice([1, 2, 3, 4, 5, 6, 8, 12, 12, 40, 64, 130])
+            if ln >= 40 and rng.random() < 0.5:
+                nm = "".join(rng.choice("0123456789abcdef") for _ in range(ln))       # digest-like names: patterns of 40+ wildcards
+            else:
+                nm = "".join(rng.choice(LETTERS * 3 + DIGITS + META * 2 + EXOTIC) for _ in range(ln))
         nm = nm.strip(" ") or "n"
         if nm in (".", "..") or "/" in nm or nm in names or len(nm.encode()) > 200:
             continue
